@@ -14,6 +14,8 @@ import RotoV.Lemmas.Literal
 import RotoV.Generated.LookAhead
 import RotoV.Lemmas.LookAhead
 import RotoV.Generated.C09FStrText
+import RotoV.Generated.C09IdentScan
+import RotoV.Lemmas.IdentScan
 
 namespace RotoV.C09
 open RotoV RotoV.Pratt RotoV.Literal RotoV.FString RotoV.Gen.Precedence
@@ -818,5 +820,100 @@ theorem return_value_starts_refuted_before_fix :
     LookAhead.exprStarts.filter (fun t => !LookAhead.returnStartsOld.contains t) =
       [.hex, .char, .fStringStart, .kwIf, .kwMatch, .kwSuper, .kwPkg, .kwDep, .kwStd] := by
   decide
+
+/-! ### T5. Identifiers: the scan of `Lexer::keyword_or_ident`
+
+`Gen.C09IdentScan` holds the two character tests of `keyword_or_ident` as the
+translator reads them from the source: `identFirst` (the `||` chain tested on
+the first character) and `identRest` (the chain handed to `eat_while` for
+every later character); the translator also checks that the scan is the
+straight line "first character, one test, skip it by `len_utf8()`, ONE
+`eat_while`, `bump_to`".  `unicode-ident`'s predicates are parameters `xs` /
+`xc`; nothing is assumed about them. -/
+
+open RotoV.IdentScan in
+/-- T5a. The generated test of the first character is "XID_Start or `_`". -/
+theorem ident_first_generated (xs xc : Char → Bool) (c : Char) :
+    anyTest xs xc Gen.C09IdentScan.identFirst c = (xs c || c == '_') := by
+  simp only [anyTest, Gen.C09IdentScan.identFirst, List.any_cons, List.any_nil, CharTest.eval]
+  cases xs c <;> cases xc c <;> cases (c == '_') <;> rfl
+
+open RotoV.IdentScan in
+/-- T5b. The generated test of every later character is XID_Continue — for
+    ASCII and non-ASCII characters alike, whatever came before. -/
+theorem ident_rest_generated (xs xc : Char → Bool) :
+    anyTest xs xc Gen.C09IdentScan.identRest = xc := by
+  funext c
+  simp only [anyTest, Gen.C09IdentScan.identRest, List.any_cons, List.any_nil, CharTest.eval]
+  cases xs c <;> cases xc c <;> cases (c == '_') <;> rfl
+
+open RotoV.IdentScan in
+/-- T5c. For EVERY input the scan run on the generated tests is the documented
+    scan. -/
+theorem ident_scan_generated (xs xc : Char → Bool) (inp : List Char) :
+    scanWith Gen.C09IdentScan.identFirst Gen.C09IdentScan.identRest xs xc inp = docScan xs xc inp := by
+  cases inp with
+  | nil => rfl
+  | cons c t =>
+    simp only [scanWith, docScan, ident_first_generated, ident_rest_generated]
+    cases (xs c || c == '_') <;> rfl
+
+open RotoV.IdentScan in
+/-- T5d (`ident_maximal_prefix`). For EVERY input and EVERY pair of predicates:
+    `keyword_or_ident`'s scan (generated tests) yields the word `w` and leaves
+    `r` IFF the input is `w ++ r`, `w` is a documented identifier word
+    (XID_Start or `_`, then XID_Continue characters — any mixture of ASCII and
+    non-ASCII ones) and `r` does not begin with an XID_Continue character: the
+    word handed to the keyword table is the MAXIMAL `(XID_Start|_) XID_Continue*`
+    prefix. -/
+theorem ident_maximal_prefix (xs xc : Char → Bool) (inp w r : List Char) :
+    scanWith Gen.C09IdentScan.identFirst Gen.C09IdentScan.identRest xs xc inp = some (w, r) ↔
+      inp = w ++ r ∧ IsIdentWord xs xc w ∧ EndsWord xc r := by
+  rw [ident_scan_generated]; exact docScan_spec xs xc inp w r
+
+/-- non-vacuity: with "letters a, é" as XID_Start and "a, é, 1, U+0301" as
+    XID_Continue, `é1á+x` scans to the word `é1á` (an ASCII
+    character after a non-ASCII one, a combining mark after an ASCII one). -/
+example :
+    let xs : Char → Bool := fun c => c == 'a' || c == 'é'
+    let xc : Char → Bool := fun c => c == 'a' || c == 'é' || c == '1' || c == Char.ofNat 0x301
+    IdentScan.scanWith Gen.C09IdentScan.identFirst Gen.C09IdentScan.identRest xs xc
+      ['é', '1', 'a', Char.ofNat 0x301, '+', 'x'] = some (['é', '1', 'a', Char.ofNat 0x301], ['+', 'x']) := by
+  decide
+
+open RotoV.IdentScan in
+/-- T5e. No longer documented word begins the input: every prefix of the input
+    that is a documented word is at most as long as the scanned one. -/
+theorem ident_longest (xs xc : Char → Bool) (inp w r w' r' : List Char)
+    (h : scanWith Gen.C09IdentScan.identFirst Gen.C09IdentScan.identRest xs xc inp = some (w, r))
+    (hsplit : inp = w' ++ r') (hw' : IsIdentWord xs xc w') : w'.length ≤ w.length := by
+  rw [ident_scan_generated] at h; exact docScan_longest xs xc inp w r w' r' h hsplit hw'
+
+example : IdentScan.IsIdentWord (fun c => c == 'a') (fun c => c == 'a' || c == '1') ['_', '1', 'a'] :=
+  ⟨'_', ['1', 'a'], rfl, Or.inr rfl, by decide⟩
+
+open RotoV.IdentScan in
+/-- T5f. The scan declines (the next recogniser is tried) IFF no prefix of the
+    input is a documented word. -/
+theorem ident_none_iff (xs xc : Char → Bool) (inp : List Char) :
+    scanWith Gen.C09IdentScan.identFirst Gen.C09IdentScan.identRest xs xc inp = none ↔
+      ∀ w r, inp = w ++ r → ¬ IsIdentWord xs xc w := by
+  rw [ident_scan_generated]; exact docScan_none xs xc inp
+
+example : IdentScan.scanWith Gen.C09IdentScan.identFirst Gen.C09IdentScan.identRest
+    (fun c => c == 'a') (fun c => c == 'a' || c == '1') ['1', 'a'] = none := by decide
+
+/-- T5g (necessity). A scan whose later characters are tested with XID_Start
+    (instead of XID_Continue) cuts `á` after `a`; one whose later test also
+    demands "ASCII" cuts `éa` after `é`: neither returns the maximal word. -/
+theorem ident_rest_must_be_xid_continue :
+    let xs : Char → Bool := fun c => c == 'a' || c == 'é'
+    let xc : Char → Bool := fun c => c == 'a' || c == 'é' || c == Char.ofNat 0x301
+    IdentScan.scanWith Gen.C09IdentScan.identFirst [.xidStart] xs xc ['a', Char.ofNat 0x301]
+        = some (['a'], [Char.ofNat 0x301]) ∧
+      IdentScan.scanWith Gen.C09IdentScan.identFirst Gen.C09IdentScan.identRest xs xc ['a', Char.ofNat 0x301]
+        = some (['a', Char.ofNat 0x301], []) ∧
+      IdentScan.IsIdentWord xs xc ['a', Char.ofNat 0x301] := by
+  refine ⟨by decide, by decide, ⟨'a', [Char.ofNat 0x301], rfl, Or.inl (by decide), by decide⟩⟩
 
 end RotoV.C09
